@@ -69,10 +69,12 @@ def accept_atoms(cond, subst=None):
                 return None
             out |= a
         return out
-    if isinstance(c, ast.Compare) and len(c.ops) == 1:
-        neg = {ast.Lt: '>=', ast.LtE: '>', ast.Gt: '<=', ast.GtE: '<'}
-        if type(c.ops[0]) in neg:
-            return {('cmp', unparse(c.left), neg[type(c.ops[0])], unparse(c.comparators[0]))}
+    if isinstance(c, ast.Compare) and len(c.ops) == 1 and isinstance(c.ops[0], (ast.Lt, ast.LtE, ast.Gt, ast.GtE)):
+        # refusal on `x < y`: the accepted set is "not (x < y)", which -- unlike `y <= x` -- also contains NaN
+        l, r = unparse(c.left), unparse(c.comparators[0])
+        if isinstance(c.ops[0], (ast.Gt, ast.GtE)):
+            l, r = r, l
+        return {('ncmp', l, '<' if isinstance(c.ops[0], (ast.Lt, ast.Gt)) else '<=', r)}
     if isinstance(c, ast.Attribute) or isinstance(c, ast.Name):
         return {('false', unparse(c))}
     return None
@@ -199,6 +201,7 @@ def r181_182(ctx):
             if 'default_value' not in {x.id for x in ast.walk(i.test) if isinstance(x, ast.Name)}:
                 continue
             want = accept_atoms(i.test, sub)
+            nan_note = []
             label = f'{c}:{short(i.test, 50)}'
             if want is None:
                 # unrecognised form: require the same text in the setter
@@ -207,9 +210,17 @@ def r181_182(ctx):
                 missing = [t] if not ok else []
             else:
                 missing = []
+                int_only = any(b[0] == 'isinstance' and b[1] == vp and b[2] <= frozenset(['int', 'bool']) for b in setter_atoms)
                 for a in want:
                     if a in setter_atoms:
                         continue
+                    if a[0] in ('cmp', 'ncmp'):
+                        # `not (x < y)` and `y <= x` accept the same numbers but differ on NaN: equivalent only for int-typed values
+                        twin = ('ncmp' if a[0] == 'cmp' else 'cmp', a[3], '<=' if a[2] == '<' else '<', a[1])
+                        if twin in setter_atoms and (int_only or a[0] == 'ncmp'):
+                            continue
+                        if twin in setter_atoms:
+                            nan_note.append(f'`{a[1]} {a[2]} {a[3]}` is checked as `not ({twin[1]} {twin[2]} {twin[3]})`, which NaN passes')
                     if a[0] == 'isinstance':
                         # narrowing accepted: setter checks a subset of the constructor's types, or the stored exact type
                         cands = [b for b in setter_atoms if b[0] == 'isinstance' and b[1] == a[1]]
@@ -221,7 +232,7 @@ def r181_182(ctx):
             if not ok:
                 ctx.finding('R18.2', f'{c}.set_value:missing:{short(i.test, 40)}', ci, sv,
                             f'the constructor refuses a default value when `{short(i.test, 70)}`, but set_value has no corresponding check '
-                            f'({[str(m) for m in missing]}): a later set_value can store a value the constructor would have refused', where=f'{c}.set_value')
+                            f'({[str(m) for m in missing]}{"; " + "; ".join(nan_note) if nan_note else ""}): a later set_value can store a value the constructor would have refused', where=f'{c}.set_value')
     ctx.floor('R18.1', 'set_value overrides', n, 7)
 
 
